@@ -40,6 +40,12 @@ type xUnit struct {
 	// oracles (optional): expressions (by printed text) replaced by a parameter of the given Gallina type: values the
 	// environment decides (clock, I/O outcome) or that are outside the subset (floating point). At most one use each.
 	Oracles map[string]xOracle
+	// state mode (optional, xlate_state.go): the receiver is abstracted to a state value threaded through the code
+	State *xStateSpec
+	// Fuel: the unit takes a fuel argument (nat) and hands it to the fuel units it calls. Units of one Group call each
+	// other recursively: they are emitted as one mutual Fixpoint that spends one unit of fuel per call (none left: Panic).
+	Fuel  bool
+	Group string
 }
 
 type xOracle struct{ Name, Type string }
@@ -80,11 +86,21 @@ type xl struct {
 	lo, hi   token.Pos  // extent of the translated statements
 	body     []ast.Stmt // the translated statements
 	tmp      int
+	// state mode
+	xpkg       *xPkg
+	units      []xUnit
+	ptrParam   map[types.Object]bool // pointer parameters: in/out values
+	ptrOrder   []*types.Var
+	isParam    map[*types.Var]bool
+	paramNames []string     // Gallina names of the unit's parameters after fuel, in order (rd last)
+	namedRes   []*types.Var // named results (variables; a bare return yields them)
+	inLoop     bool         // inside the `for { }` of a fuel unit
+	loopState  string
 }
 
 // identifiers the generated text uses itself; a Go variable of such a name gets a trailing underscore
 var xReserved = strings.Fields(`ctl Next Return Panic bindc go_call wrapU wrapS go_len go_nth go_in_range go_slice
- go_slice_ok go_bytes_eqb go_be_u16 go_be_u32 go_be_u64 go_emit_u8 go_emit_u16 go_emit_u32 go_emit_u64 go_emit_bytes go_range go_count go_map_get go_map_set go_make
+ go_slice_ok go_bytes_eqb go_be_u16 go_be_u32 go_be_u64 go_emit_u8 go_emit_u16 go_emit_u32 go_emit_u64 go_emit_bytes go_range go_count go_map_get go_map_set go_make go_iter rd fuel inl inr go_atomic_cas32 go_atomic_add32
  andb orb negb implb true false tt nil cons list unit bool Z N nat fst snd pair Bool eqb
  fun let in if then else match with end as return forall exists fix cofix Type Prop Set struct where at using for IF
  Definition Fixpoint Record Lemma Theorem out st`)
@@ -260,6 +276,11 @@ func (x *xl) lvalue(e ast.Expr) *types.Var {
 	if f := x.field(e); f != nil {
 		return f
 	}
+	if se, ok := e.(*ast.StarExpr); ok { // *p = v for a pointer parameter
+		if id, isId := se.X.(*ast.Ident); isId && x.ptrParam[x.info.ObjectOf(id)] {
+			return x.info.ObjectOf(id).(*types.Var)
+		}
+	}
 	if ie, ok := e.(*ast.IndexExpr); ok { // m[k] = v sets the map variable
 		if _, isMap := x.typeOf(ie.X).Underlying().(*types.Map); isMap {
 			if id, isId := ie.X.(*ast.Ident); isId {
@@ -415,9 +436,16 @@ func (x *xl) expr(e ast.Expr, g *xGuards) string {
 		}
 		x.fail(e, "constant %s of a kind outside the subset", x.src(e))
 	}
+	if f, ok := x.stField(e); ok {
+		return "(" + f.Get + " rd)"
+	}
 	switch e := e.(type) {
 	case *ast.ParenExpr:
 		return x.expr(e.X, g)
+	case *ast.StarExpr: // *p for a pointer parameter p: the in/out value
+		if id, ok := e.X.(*ast.Ident); ok && x.ptrParam[x.info.ObjectOf(id)] {
+			return x.names[x.info.ObjectOf(id)]
+		}
 	case *ast.Ident:
 		if _, isNil := x.info.ObjectOf(e).(*types.Nil); isNil {
 			return x.zero(e, x.typeOf(e))
@@ -606,6 +634,19 @@ func (x *xl) arith(e *ast.BinaryExpr, a, b string, g *xGuards) string {
 }
 
 func (x *xl) call(e *ast.CallExpr, g *xGuards) string {
+	if sp := x.stSpec(); sp != nil {
+		f := x.src(e.Fun)
+		if sp.Errs[f] { // an error value that is not nil; its text is not modelled
+			return "true"
+		}
+		if p, ok := sp.Pure[f]; ok {
+			as := []string{p}
+			for _, a := range e.Args {
+				as = append(as, x.expr(a, g))
+			}
+			return "(" + strings.Join(as, " ") + " rd)"
+		}
+	}
 	if tv := x.info.Types[e.Fun]; tv.IsType() { // conversion T(v)
 		if len(e.Args) != 1 {
 			x.fail(e, "conversion with %d arguments", len(e.Args))
@@ -658,6 +699,21 @@ func (x *xl) call(e *ast.CallExpr, g *xGuards) string {
 }
 
 func (x *xl) composite(e *ast.CompositeLit, g *xGuards) string {
+	if sl, ok := x.typeOf(e).Underlying().(*types.Slice); ok { // []T{e1, ..} without keys
+		t := x.zero(e, x.typeOf(e))
+		for i := len(e.Elts) - 1; i >= 0; i-- {
+			if _, keyed := e.Elts[i].(*ast.KeyValueExpr); keyed {
+				x.fail(e, "keyed slice literals are outside the subset")
+			}
+			el := x.expr(e.Elts[i], g)
+			if xIsBytes(x.typeOf(e)) {
+				el = "(Z.to_N " + el + ")"
+			}
+			t = "(" + el + " :: " + t + ")"
+		}
+		_ = sl
+		return t
+	}
 	if m, ok := x.typeOf(e).Underlying().(*types.Map); ok {
 		t := "(@nil (Z * " + x.coqType(e, m.Elem()) + "))"
 		x.coqType(e, x.typeOf(e))
@@ -818,8 +874,15 @@ func (x *xl) state(n ast.Node, vs []*types.Var) (term, typ, bind string) {
 	if x.unit.Writer != nil {
 		ns, ts = append(ns, "out"), append(ts, "(list N)")
 	}
+	if x.unit.State != nil {
+		ns, ts = append(ns, "rd"), append(ts, x.unit.State.Type)
+	}
 	for _, v := range vs {
-		ns, ts = append(ns, x.names[v]), append(ts, x.coqType(n, v.Type()))
+		t := v.Type()
+		if pt, ok := t.(*types.Pointer); ok && x.ptrParam[v] { // a pointer parameter stands for its pointee
+			t = pt.Elem()
+		}
+		ns, ts = append(ns, x.names[v]), append(ts, x.coqType(n, t))
 	}
 	switch len(ns) {
 	case 0:
@@ -873,6 +936,22 @@ func (x *xl) ret(vals []string) string {
 	if x.unit.Writer != nil {
 		return "Return (out, " + v + ")"
 	}
+	if x.unit.State != nil { // the state, the pointees of the pointer parameters, the results
+		all := []string{"rd"}
+		for _, p := range x.ptrOrder {
+			all = append(all, x.names[p])
+		}
+		if v != "tt" || len(vals) > 0 {
+			all = append(all, vals...)
+		}
+		v = all[0]
+		if len(all) > 1 {
+			v = "(" + strings.Join(all, ", ") + ")"
+		}
+	}
+	if x.inLoop { // inside `for { }` a return is told apart from break
+		return "Return (inr " + v + ")"
+	}
 	return "Return " + v
 }
 
@@ -924,6 +1003,13 @@ func (x *xl) stmt(s ast.Stmt, rest func() string, d int) string {
 				return x.effect(callee, prim, "err__", g, x.ret([]string{"err__"}), d)
 			}
 		}
+		if len(s.Results) == 0 && len(x.namedRes) > 0 { // bare return: the named results as they are
+			var vs []string
+			for _, v := range x.namedRes {
+				vs = append(vs, x.names[v])
+			}
+			return x.ret(vs)
+		}
 		if len(s.Results) != x.nres {
 			x.fail(s, "return with %d values in a function with %d results (named results are outside the subset)", len(s.Results), x.nres)
 		}
@@ -936,6 +1022,10 @@ func (x *xl) stmt(s ast.Stmt, rest func() string, d int) string {
 			}
 		}
 		return xGuarded(g, x.ret(vs))
+	case *ast.BranchStmt:
+		if s.Tok == token.BREAK && s.Label == nil && x.inLoop {
+			return "Return (inl " + x.loopState + ")"
+		}
 	case *ast.DeclStmt:
 		gd, ok := s.Decl.(*ast.GenDecl)
 		if !ok || gd.Tok != token.VAR {
@@ -967,8 +1057,18 @@ func (x *xl) stmt(s ast.Stmt, rest func() string, d int) string {
 		if callee, prim, ok := x.writerCall(s.X, &g); ok {
 			return x.effect(callee, prim, "_", g, rest(), d)
 		}
+		if inv := x.stCall(s.X, &g); inv != nil {
+			return x.stBind(s, inv, nil, false, g, rest, d)
+		}
 		x.fail(s, "expression statement %s is outside the subset", x.src(s))
 	case *ast.IncDecStmt:
+		if f, ok := x.stField(s.X); ok && f.Set != "" {
+			op := " + 1"
+			if s.Tok == token.DEC {
+				op = " - 1"
+			}
+			return "let rd := " + f.Set + " rd " + x.wrap(s, x.typeOf(s.X), "(("+f.Get+" rd)"+op+")") + " in" + xInd(d) + rest()
+		}
 		lv := x.lvalue(s.X)
 		n, ok := x.names[lv]
 		if lv == nil || !ok {
@@ -992,7 +1092,7 @@ func (x *xl) stmt(s ast.Stmt, rest func() string, d int) string {
 			els = []ast.Stmt{s.Else}
 		}
 		vs := x.assigned(append(append([]ast.Stmt{}, s.Body.List...), els...))
-		if len(vs) == 0 && x.unit.Writer == nil && !(xFalls(s.Body.List) && xFalls(els)) {
+		if len(vs) == 0 && x.unit.Writer == nil && x.unit.State == nil && !(xFalls(s.Body.List) && xFalls(els)) {
 			// at most one branch continues: no merge needed, the continuation goes into that branch
 			k := rest()
 			return xGuarded(g, "if "+c+xInd(d)+"then "+x.block(s.Body.List, k, d+1)+xInd(d)+"else "+x.block(els, k, d+1))
@@ -1028,6 +1128,17 @@ func (x *xl) assign(s *ast.AssignStmt, rest func() string, d int) string {
 				n = x.declare(x.info.ObjectOf(id))
 			}
 			return x.effect(callee, prim, n, g, rest(), d)
+		}
+	}
+	if len(s.Rhs) == 1 {
+		if inv := x.stCall(s.Rhs[0], &g); inv != nil {
+			return x.stBind(s, inv, s.Lhs, s.Tok == token.DEFINE, g, rest, d)
+		}
+	}
+	if len(s.Lhs) == 1 && s.Tok == token.ASSIGN {
+		if f, ok := x.stField(s.Lhs[0]); ok && f.Set != "" { // a receiver field kept in the state
+			v := x.expr(s.Rhs[0], &g)
+			return xGuarded(g, "let rd := "+f.Set+" rd "+v+" in"+xInd(d)+rest())
 		}
 	}
 	if len(s.Lhs) != len(s.Rhs) {
@@ -1197,6 +1308,9 @@ func (x *xl) rangeStmt(s *ast.RangeStmt, rest func() string, d int) string {
 
 // for i := a; i < n; i++ { body } where the body assigns neither i nor a variable n mentions: a counted fold
 func (x *xl) forStmt(s *ast.ForStmt, rest func() string, d int) string {
+	if s.Init == nil && s.Cond == nil && s.Post == nil {
+		return x.loopStmt(s, rest, d)
+	}
 	bad := func() {
 		x.fail(s, "only loops of the form  for i := a; i < n; i++ { ... }  (and range loops over slices) are in the subset")
 	}
